@@ -24,7 +24,8 @@ RULE = ("Each case = a batch of generated arrival histories (5-60 frames of 1-12
         "generated frame exactly once. Enumeration cases run all arrival permutations of 5 (quick) / 6 (thorough) packets "
         "with <= 1 duplicate at capacity 4, prefetch 0/1. Distinct/non-trivial = distinct (capacity, prefetch, mode, feature "
         "vector) histories that released >= 1 frame."
-        " Streams may contain padding-only packets (padding bit, no payload), which are the only legitimate gaps in a frame's data.")
+        " Streams may contain padding-only packets (padding bit, no payload), which are the only legitimate gaps in a frame's data."
+        ' In complete, slightly displaced streams add() must release a frame whenever the stored arrival leaves one outside the trailing prefetch window whole in the buffer.')
 ASSUMPTIONS = [
     "'n positions late' is measured against the highest sequence number seen so far (serial arithmetic); after such an arrival the no-reuse / ordering clauses are not evaluated for the rest of that history, exactly as the statement allows",
     "ring contents are read from the private attribute _packets for the PLI and occupancy clauses; if it is missing these sub-checks are counted inconclusive",
